@@ -318,6 +318,13 @@ impl Compiler {
                 self.emit_u16(symbol.index);
             }
             Stmt::Return(expr) => {
+                // There is no frame to return from outside of a function
+                if self.symbols.in_global_context() {
+                    return Err(Error::SyntaxError(
+                        "foutief gebruik van 'antwoord'".to_string(),
+                    ));
+                }
+
                 // TODO: Allow expression to be omitted (needs work in parser first)
                 self.compile_expression(expr)?;
                 self.emit_opcode(OpCode::ReturnValue);
